@@ -8,53 +8,53 @@ open Tuc.Spec
 /-! ## the invariant of the read loop -/
 
 /-- what the pending bound still has to print when `i` lines have been read -/
-def headText (eol : UInt8) (ls : List Bytes) (i : Nat) (addNl : Bool) (b : UserBounds) : Bytes :=
+def fwdHeadText (eol : UInt8) (ls : List Bytes) (i : Nat) (addNl : Bool) (b : UserBounds) : Bytes :=
   match resolve b ls.length with
   | some (lo, hi) =>
     if addNl then contText eol (slice ls i hi) else joinText eol (slice ls (lo - 1) hi)
   | none => []
 
 /-- what remains to be printed before the final EOL -/
-def remOut (eol : UInt8) (join : Bool) (ls : List Bytes) (i : Nat) (addNl : Bool) :
+def fwdRemOut (eol : UInt8) (join : Bool) (ls : List Bytes) (i : Nat) (addNl : Bool) :
     List UserBounds → Bytes
   | [] => []
-  | b :: t => headText eol ls i addNl b ++ joinerOf eol join t ++ linesOut eol join ls t
+  | b :: t => fwdHeadText eol ls i addNl b ++ lineJoinerOf eol join t ++ linesOut eol join ls t
 
-theorem remOut_false (eol : UInt8) (join : Bool) (ls : List Bytes) (i : Nat)
-    (rest : List UserBounds) : remOut eol join ls i false rest = linesOut eol join ls rest := by
+theorem fwdRemOut_false (eol : UInt8) (join : Bool) (ls : List Bytes) (i : Nat)
+    (rest : List UserBounds) : fwdRemOut eol join ls i false rest = linesOut eol join ls rest := by
   cases rest with
   | nil => rfl
-  | cons b t => cases h : resolve b ls.length <;> simp [remOut, linesOut, headText, selText, h]
+  | cons b t => cases h : resolve b ls.length <;> simp [fwdRemOut, linesOut, fwdHeadText, selText, h]
 
 /-- `add_newline_next` ⇔ the pending bound has printed lines `lo … i` and is not finished;
     otherwise it has printed nothing and none of its lines has been read -/
-def Inv (ls : List Bytes) (i : Nat) (addNl : Bool) : List UserBounds → Prop
+def FwdInv (ls : List Bytes) (i : Nat) (addNl : Bool) : List UserBounds → Prop
   | [] => True
   | b :: _ => ∃ lo hi, resolve b ls.length = some (lo, hi) ∧
       (if addNl then lo ≤ i ∧ (b.r ≠ .cont → i < hi) else i < lo)
 
-structure Good (ls : List Bytes) (rest : List UserBounds) : Prop where
+structure FwdGood (ls : List Bytes) (rest : List UserBounds) : Prop where
   pos : ∀ b ∈ rest, b.Pos
   res : ∀ b ∈ rest, resolve b ls.length ≠ none
   asc : Ascending rest
 
-theorem Good.tail {ls : List Bytes} {b : UserBounds} {t : List UserBounds} (h : Good ls (b :: t)) :
-    Good ls t :=
+theorem FwdGood.tail {ls : List Bytes} {b : UserBounds} {t : List UserBounds} (h : FwdGood ls (b :: t)) :
+    FwdGood ls t :=
   ⟨fun x hx => h.pos x (List.mem_cons_of_mem _ hx), fun x hx => h.res x (List.mem_cons_of_mem _ hx),
     h.asc.tail⟩
 
 theorem lineJoiner_map (o : Opt) (t : List UserBounds) :
-    lineJoiner o (t.map .bound) = joinerOf o.eol.byte o.join t := by
-  unfold lineJoiner joinerOf
+    lineJoiner o (t.map .bound) = lineJoinerOf o.eol.byte o.join t := by
+  unfold lineJoiner lineJoinerOf
   cases t <;> simp
 
 theorem fwdLine_step (o : Opt) (ls : List Bytes) (i : Nat) (line : Bytes) (tl : List Bytes)
     (hd : ls.drop i = line :: tl) :
-    ∀ (rest : List UserBounds) (addNl : Bool), Good ls rest → Inv ls i addNl rest →
+    ∀ (rest : List UserBounds) (addNl : Bool), FwdGood ls rest → FwdInv ls i addNl rest →
       ∃ w rest' a', fwdLine o line ((i : Int) + 1) (rest.map .bound) addNl
-          = (w, rest'.map .bound, a') ∧ Good ls rest' ∧ Inv ls (i + 1) a' rest' ∧
-        remOut o.eol.byte o.join ls i addNl rest
-          = w ++ remOut o.eol.byte o.join ls (i + 1) a' rest' := by
+          = (w, rest'.map .bound, a') ∧ FwdGood ls rest' ∧ FwdInv ls (i + 1) a' rest' ∧
+        fwdRemOut o.eol.byte o.join ls i addNl rest
+          = w ++ fwdRemOut o.eol.byte o.join ls (i + 1) a' rest' := by
   intro rest
   induction rest with
   | nil =>
@@ -63,7 +63,7 @@ theorem fwdLine_step (o : Opt) (ls : List Bytes) (i : Nat) (line : Bytes) (tl : 
   | cons b t ih =>
     intro addNl hg hinv
     obtain ⟨lo, hi, hres, hcond⟩ := hinv
-    have sel := Sel.of_resolve (hg.pos b (by simp)) hres
+    have sel := LineSel.of_resolve (hg.pos b (by simp)) hres
     have hin : i < ls.length := by
       have : (ls.drop i).length = tl.length + 1 := by rw [hd]; rfl
       rw [List.length_drop] at this; omega
@@ -91,10 +91,10 @@ theorem fwdLine_step (o : Opt) (ls : List Bytes) (i : Nat) (line : Bytes) (tl : 
               (fwdLine o line ((i + 1 : Nat) : Int) (List.map BoF.bound t) false).2.fst,
               (fwdLine o line ((i + 1 : Nat) : Int) (List.map BoF.bound t) false).2.snd)
           else (pre, BoF.bound b :: List.map BoF.bound t, true))
-          = (w, rest'.map .bound, a') ∧ Good ls rest' ∧ Inv ls (i + 1) a' rest' ∧
-        pre ++ (contText o.eol.byte (slice ls (i + 1) hi) ++ joinerOf o.eol.byte o.join t
+          = (w, rest'.map .bound, a') ∧ FwdGood ls rest' ∧ FwdInv ls (i + 1) a' rest' ∧
+        pre ++ (contText o.eol.byte (slice ls (i + 1) hi) ++ lineJoinerOf o.eol.byte o.join t
             ++ linesOut o.eol.byte o.join ls t)
-          = w ++ remOut o.eol.byte o.join ls (i + 1) a' rest' := by
+          = w ++ fwdRemOut o.eol.byte o.join ls (i + 1) a' rest' := by
       intro pre hlo hle
       by_cases hfin : b.r = Side.some ((i + 1 : Nat) : Int)
       · rw [if_pos hfin]
@@ -103,7 +103,7 @@ theorem fwdLine_step (o : Opt) (ls : List Bytes) (i : Nat) (line : Bytes) (tl : 
           rw [hfin] at this
           simp only [Side.some.injEq] at this
           omega
-        have hinvt : Inv ls i false t := by
+        have hinvt : FwdInv ls i false t := by
           cases t with
           | nil => trivial
           | cons q t' =>
@@ -111,7 +111,7 @@ theorem fwdLine_step (o : Opt) (ls : List Bytes) (i : Nat) (line : Bytes) (tl : 
             | none => exact absurd hq (hg.res q (by simp))
             | some lh =>
               obtain ⟨lo', hi'⟩ := lh
-              have selq := Sel.of_resolve (hg.pos q (by simp)) hq
+              have selq := LineSel.of_resolve (hg.pos q (by simp)) hq
               have hf : Follows b q := hg.asc.1
               unfold Follows at hf
               rw [hfin] at hf
@@ -121,7 +121,7 @@ theorem fwdLine_step (o : Opt) (ls : List Bytes) (i : Nat) (line : Bytes) (tl : 
         obtain ⟨w', rest', a', hf, hg', hinv', hrem⟩ := ih false hg.tail hinvt
         rw [hf]
         refine ⟨pre ++ lineJoiner o (List.map BoF.bound t) ++ w', rest', a', rfl, hg', hinv', ?_⟩
-        rw [slice_eq_nil_of_le ls (by omega : hi ≤ i + 1), contText_nil, ← remOut_false _ _ _ i,
+        rw [slice_eq_nil_of_le ls (by omega : hi ≤ i + 1), contText_nil, ← fwdRemOut_false _ _ _ i,
           hrem, lineJoiner_map]
         simp only [List.nil_append, List.append_assoc]
       · rw [if_neg hfin]
@@ -132,7 +132,7 @@ theorem fwdLine_step (o : Opt) (ls : List Bytes) (i : Nat) (line : Bytes) (tl : 
           rw [this] at hfin
           simp only [Side.some.injEq] at hfin
           omega
-        · simp [remOut, headText, hres]
+        · simp [fwdRemOut, fwdHeadText, hres]
     by_cases hmatch : (b.matches ((i + 1 : Nat) : Int)).getD false = true
     · rw [if_pos hmatch]
       obtain ⟨h1, h2⟩ := hm.1 hmatch
@@ -147,11 +147,11 @@ theorem fwdLine_step (o : Opt) (ls : List Bytes) (i : Nat) (line : Bytes) (tl : 
       have hsl : slice ls i hi = line :: slice ls (i + 1) hi := slice_cons_of_drop hd (by omega)
       cases addNl with
       | true =>
-        simp [remOut, headText, hres, hsl]
+        simp [fwdRemOut, fwdHeadText, hres, hsl]
       | false =>
         simp only [Bool.false_eq_true, if_false] at hcond
         have : lo - 1 = i := by omega
-        simp [remOut, headText, hres, this, hsl]
+        simp [fwdRemOut, fwdHeadText, hres, this, hsl]
     · rw [if_neg hmatch]
       have hnm := fun h => hmatch (hm.2 h)
       cases addNl with
@@ -170,15 +170,15 @@ theorem fwdLine_step (o : Opt) (ls : List Bytes) (i : Nat) (line : Bytes) (tl : 
           intro hcon
           exact hnm ⟨by omega, Or.inl (by have := sel.lo_le; omega)⟩
         refine ⟨[], b :: t, false, rfl, hg, ⟨lo, hi, hres, by simp only [Bool.false_eq_true, if_false]; exact hlt⟩, ?_⟩
-        rw [remOut_false, remOut_false]; rfl
+        rw [fwdRemOut_false, fwdRemOut_false]; rfl
 
 /-- the read loop prints exactly what remains -/
 theorem fwdLines_eq (o : Opt) (ls : List Bytes)
     (hutf : o.eol = .newline → ∀ l ∈ ls, validUtf8 l = true) :
     ∀ (ls' : List Bytes) (i : Nat) (rest : List UserBounds) (addNl : Bool),
-      ls.drop i = ls' → Good ls rest → Inv ls i addNl rest →
+      ls.drop i = ls' → FwdGood ls rest → FwdInv ls i addNl rest →
       fwdLines o ls' (i : Int) (rest.map .bound) addNl
-        = Run.ok (remOut o.eol.byte o.join ls i addNl rest ++ [o.eol.byte]) := by
+        = Run.ok (fwdRemOut o.eol.byte o.join ls i addNl rest ++ [o.eol.byte]) := by
   intro ls'
   induction ls' with
   | nil =>
@@ -189,7 +189,7 @@ theorem fwdLines_eq (o : Opt) (ls : List Bytes)
     | nil => rfl
     | cons b t =>
       obtain ⟨lo, hi, hres, hcond⟩ := hinv
-      have sel := Sel.of_resolve (hg.pos b (by simp)) hres
+      have sel := LineSel.of_resolve (hg.pos b (by simp)) hres
       cases addNl with
       | false =>
         exfalso
@@ -208,12 +208,227 @@ theorem fwdLines_eq (o : Opt) (ls : List Bytes)
             have hf : Follows b q := hg.asc.1
             unfold Follows at hf; rw [hc] at hf; exact hf.elim
         subst ht
-        simp [fwdEnd, hc, lineJoiner, remOut, headText, hres, slice_eq_nil_of_length_le ls hi hlen,
-          joinerOf, linesOut, Run.pre, Run.ok]
+        simp [fwdEnd, hc, lineJoiner, fwdRemOut, fwdHeadText, hres, slice_eq_nil_of_length_le ls hi hlen,
+          lineJoinerOf, linesOut, Run.pre, Run.ok]
   | cons line tl ih =>
     intro i rest addNl hd hg hinv
     simp only [fwdLines]
-    trace_state
-    sorry
+    have hmem : line ∈ ls := by
+      have : line ∈ ls.drop i := by rw [hd]; simp
+      exact List.mem_of_mem_drop this
+    have hv : (decide (o.eol = EOL.newline) && !validUtf8 line) = false := by
+      by_cases he : o.eol = .newline
+      · simp [hutf he line hmem]
+      · simp [he]
+    rw [hv]
+    simp only [Bool.false_eq_true, if_false]
+    obtain ⟨w, rest', a', hf, hg', hinv', hrem⟩ := fwdLine_step o ls i line tl hd rest addNl hg hinv
+    rw [hf, hrem]
+    simp only
+    cases rest' with
+    | nil => simp [fwdRemOut]
+    | cons b' t' =>
+      have hk : ((i : Int) + 1) = ((i + 1 : Nat) : Int) := by omega
+      rw [hk, ih (i + 1) (b' :: t') a' (drop_succ_of_drop hd) hg' hinv']
+      simp [Run.pre, Run.ok]
+
+/-! ## the theorems -/
+
+theorem boundsOnly_map_bound (bs : List UserBounds) : boundsOnly (bs.map .bound) = bs := by
+  induction bs with
+  | nil => rfl
+  | cons b t ih => simp [boundsOnly, ih]
+
+/-- a plain forward-only request every bound of which resolves on `n` lines: positive indexes,
+    ascending -/
+theorem good_of_forwardOnly (ls : List Bytes) (bs : List UserBounds)
+    (hfwd : isForwardOnly (bs.map .bound) = true)
+    (hres : ∀ b ∈ bs, resolve b ls.length ≠ none) : FwdGood ls bs := by
+  have hz : ∀ b ∈ boundsOnly (bs.map BoF.bound), b.Nonzero := by
+    rw [boundsOnly_map_bound]
+    exact fun b hb => nonzero_of_resolve (hres b hb)
+  have h := (isForwardOnly_spec _ hz).1 hfwd
+  rw [boundsOnly_map_bound] at h
+  exact ⟨h.1, hres, h.2⟩
+
+/-- **The one-line-at-a-time algorithm prints exactly the selected lines** — byte for byte, in
+    request order, separated by the EOL (or concatenated under `--no-join`), followed by one EOL —
+    and succeeds.  For every input (the hypothesis on the bounds is void for the empty one), every
+    plain forward-only request resolvable on it; in LF mode the lines must be UTF-8
+    (`read_line`), with `-z` they are arbitrary bytes. -/
+theorem fwd_output (o : Opt) (input : Bytes) (bs : List UserBounds)
+    (hplain : o.bounds.list = bs.map .bound)
+    (hfwd : isForwardOnly o.bounds.list = true)
+    (hres : ∀ b ∈ bs, resolve b (records o.eol.byte input).length ≠ none)
+    (hutf : o.eol = .newline → ∀ l ∈ records o.eol.byte input, validUtf8 l = true) :
+    cutLinesForwardOnly o input
+      = Run.ok (linesOut o.eol.byte o.join (records o.eol.byte input) bs ++ [o.eol.byte]) := by
+  unfold cutLinesForwardOnly
+  rw [hplain] at hfwd ⊢
+  have hg := good_of_forwardOnly _ bs hfwd hres
+  have hinv : FwdInv (records o.eol.byte input) 0 false bs := by
+    cases bs with
+    | nil => trivial
+    | cons b t =>
+      cases hq : resolve b (records o.eol.byte input).length with
+      | none => exact absurd hq (hres b (by simp))
+      | some lh =>
+        obtain ⟨lo, hi⟩ := lh
+        have := (resolve_some_bounds hq).1
+        exact ⟨lo, hi, hq, by simp only [Bool.false_eq_true, if_false]; omega⟩
+  have := fwdLines_eq o (records o.eol.byte input) hutf (records o.eol.byte input) 0 bs false
+    (List.drop_zero) hg hinv
+  rw [fwdRemOut_false] at this
+  exact this
+
+/-- **C05, the line-at-a-time algorithm refines the specification** (output and status).
+    Besides the hypotheses of the property, only `o.complement = false` is needed: `specLines`
+    reads of `cfgOf o` nothing but the EOL, the bounds, `complement`, `join` (and `fallbackOob`,
+    unused here since every bound resolves) — in particular not the delimiter, `boundsType`,
+    `replaceDelimiter` or `json`. -/
+theorem fwd_eq_spec (o : Opt) (input : Bytes) (bs : List UserBounds)
+    (hplain : o.bounds.list = bs.map .bound)
+    (hfwd : isForwardOnly o.bounds.list = true)
+    (hres : ∀ b ∈ bs, resolve b (records o.eol.byte input).length ≠ none)
+    (hutf : o.eol = .newline → ∀ l ∈ records o.eol.byte input, validUtf8 l = true)
+    (h0 : input ≠ []) (h1 : input ≠ [o.eol.byte])
+    (hc : o.complement = false) :
+    cutLinesForwardOnly o input = specLines (cfgOf o) input := by
+  rw [fwd_output o input bs hplain hfwd hres hutf]
+  exact (specLines_eq_linesOut (cfgOf o) input bs hplain hc h0 h1 hres).symm
+
+/-- the same for the entry point `read_and_cut_lines`, which serves the request one line at a
+    time when it is forward-only, without `-m` and without `-p` -/
+theorem readAndCutLines_eq_spec (o : Opt) (input : Bytes) (bs : List UserBounds)
+    (hplain : o.bounds.list = bs.map .bound)
+    (hfwd : isForwardOnly o.bounds.list = true)
+    (hres : ∀ b ∈ bs, resolve b (records o.eol.byte input).length ≠ none)
+    (hutf : o.eol = .newline → ∀ l ∈ records o.eol.byte input, validUtf8 l = true)
+    (h0 : input ≠ []) (h1 : input ≠ [o.eol.byte])
+    (hc : o.complement = false) (hp : o.compressDelimiter = false) :
+    readAndCutLines o input = specLines (cfgOf o) input := by
+  unfold readAndCutLines
+  rw [hc, hp, hfwd]
+  simp only [Bool.not_false, Bool.and_self, if_true]
+  exact fwd_eq_spec o input bs hplain hfwd hres hutf h0 h1 hc
+
+/-! ## a single trailing EOL never counts as an extra empty line -/
+
+/-- for a non-empty input that does not already end with the EOL, adding one EOL changes nothing
+    (whatever the request: the two runs read the same lines) -/
+theorem fwd_trailing_eol (o : Opt) (x : Bytes) (hne : x ≠ [])
+    (hlast : x.getLast? ≠ some o.eol.byte) :
+    cutLinesForwardOnly o (x ++ [o.eol.byte]) = cutLinesForwardOnly o x := by
+  unfold cutLinesForwardOnly
+  rw [records_trailing_eol o.eol.byte x hne hlast]
+
+/-- the specification agrees -/
+theorem specLines_trailing_eol (cfg : Cfg) (x : Bytes) (hne : x ≠ [])
+    (hlast : x.getLast? ≠ some cfg.eol) :
+    specLines cfg (x ++ [cfg.eol]) = specLines cfg x := by
+  unfold specLines
+  rw [records_trailing_eol cfg.eol x hne hlast]
+
+/-- the hypotheses are needed: the empty input has no line, the lone EOL has one (empty) line;
+    and a second trailing EOL is an empty last line -/
+example : records 10 [] = [] ∧ records 10 [10] = [[]] := by decide
+example : records 10 [97, 10] = [[97]] ∧ records 10 [97, 10, 10] = [[97], []] := by decide
+
+/-! ## `--no-join` and the joined form -/
+
+theorem linesOut_noJoin (eol : UInt8) (ls : List Bytes) (bs : List UserBounds) :
+    linesOut eol false ls bs = bs.flatMap (selText eol ls) := by
+  induction bs with
+  | nil => rfl
+  | cons b t ih => simp [linesOut, lineJoinerOf, ih]
+
+theorem linesOut_join (eol : UInt8) (ls : List Bytes) (bs : List UserBounds) :
+    linesOut eol true ls bs = List.intercalate [eol] (bs.map (selText eol ls)) := by
+  induction bs with
+  | nil => rfl
+  | cons b t ih =>
+    cases t with
+    | nil => simp [linesOut, lineJoinerOf, List.intercalate]
+    | cons c u =>
+      rw [linesOut, ih]
+      simp [lineJoinerOf, List.intercalate]
+
+/-- **`--no-join`**: the selected lines of the successive bounds are concatenated with nothing in
+    between (the lines *inside* a range stay separated by the EOL) -/
+theorem fwd_no_join (o : Opt) (input : Bytes) (bs : List UserBounds)
+    (hplain : o.bounds.list = bs.map .bound)
+    (hfwd : isForwardOnly o.bounds.list = true)
+    (hres : ∀ b ∈ bs, resolve b (records o.eol.byte input).length ≠ none)
+    (hutf : o.eol = .newline → ∀ l ∈ records o.eol.byte input, validUtf8 l = true)
+    (hj : o.join = false) :
+    cutLinesForwardOnly o input
+      = Run.ok (bs.flatMap (selText o.eol.byte (records o.eol.byte input)) ++ [o.eol.byte]) := by
+  rw [fwd_output o input bs hplain hfwd hres hutf, hj, linesOut_noJoin]
+
+/-- with the join, the bounds are separated by one EOL -/
+theorem fwd_join (o : Opt) (input : Bytes) (bs : List UserBounds)
+    (hplain : o.bounds.list = bs.map .bound)
+    (hfwd : isForwardOnly o.bounds.list = true)
+    (hres : ∀ b ∈ bs, resolve b (records o.eol.byte input).length ≠ none)
+    (hutf : o.eol = .newline → ∀ l ∈ records o.eol.byte input, validUtf8 l = true)
+    (hj : o.join = true) :
+    cutLinesForwardOnly o input
+      = Run.ok (List.intercalate [o.eol.byte]
+          (bs.map (selText o.eol.byte (records o.eol.byte input))) ++ [o.eol.byte]) := by
+  rw [fwd_output o input bs hplain hfwd hres hutf, hj, linesOut_join]
+
+/-! ## concrete data: lines "a", "", "bc", request `1,2:3` -/
+
+def c05Bounds : List UserBounds :=
+  [{ l := .some 1, r := .some 1 }, { l := .some 2, r := .some 3, isLast := true }]
+
+def c05Opt (join : Bool) : Opt :=
+  { delimiter := [10], bounds := ⟨c05Bounds.map .bound, .some 3⟩, boundsType := .lines, join := join }
+
+/-- `a⏎⏎bc` -/
+def c05Input : Bytes := [97, 10, 10, 98, 99]
+
+example : records 10 c05Input = [[97], [], [98, 99]] := by decide
+example : records 10 (c05Input ++ [10]) = [[97], [], [98, 99]] := by decide
+example : isForwardOnly (c05Opt true).bounds.list = true := by decide
+
+-- join: `a⏎` `⏎bc` `⏎`
+example : cutLinesForwardOnly (c05Opt true) c05Input = Run.ok [97, 10, 10, 98, 99, 10] := by decide
+example : cutLinesForwardOnly (c05Opt true) (c05Input ++ [10]) = Run.ok [97, 10, 10, 98, 99, 10] := by
+  decide
+example : specLines (cfgOf (c05Opt true)) c05Input = Run.ok [97, 10, 10, 98, 99, 10] := by decide
+example : specLines (cfgOf (c05Opt true)) (c05Input ++ [10]) = Run.ok [97, 10, 10, 98, 99, 10] := by
+  decide
+-- `--no-join`: `a` `⏎bc` `⏎`
+example : cutLinesForwardOnly (c05Opt false) c05Input = Run.ok [97, 10, 98, 99, 10] := by decide
+example : cutLinesForwardOnly (c05Opt false) (c05Input ++ [10]) = Run.ok [97, 10, 98, 99, 10] := by
+  decide
+example : specLines (cfgOf (c05Opt false)) c05Input = Run.ok [97, 10, 98, 99, 10] := by decide
+example : specLines (cfgOf (c05Opt false)) (c05Input ++ [10]) = Run.ok [97, 10, 98, 99, 10] := by
+  decide
+example : readAndCutLines (c05Opt true) c05Input = Run.ok [97, 10, 10, 98, 99, 10] := by decide
+
+/-- the hypotheses of the theorem are satisfiable: this is an instance of it -/
+example : cutLinesForwardOnly (c05Opt true) c05Input = specLines (cfgOf (c05Opt true)) c05Input :=
+  fwd_eq_spec (c05Opt true) c05Input c05Bounds rfl (by decide) (by decide) (by decide) (by decide)
+    (by decide) rfl
+
+/-- the empty input and the lone EOL are outside the property: the specification prints one EOL,
+    the line-at-a-time algorithm fails on the first / prints the joiner on the second -/
+example : cutLinesForwardOnly (c05Opt true) [] = Run.fail
+    ∧ specLines (cfgOf (c05Opt true)) [] = Run.ok [10] := by decide
+example : cutLinesForwardOnly { c05Opt true with bounds := ⟨[.bound ⟨.some 1, .some 1, false, none⟩,
+      .bound ⟨.some 1, .some 1, true, none⟩], .some 1⟩ } [10] = Run.ok [10, 10]
+    ∧ specLines (cfgOf { c05Opt true with bounds := ⟨[.bound ⟨.some 1, .some 1, false, none⟩,
+      .bound ⟨.some 1, .some 1, true, none⟩], .some 1⟩ }) [10] = Run.ok [10] := by decide
+
+/-- D12 (repaired): `2,:3` is not forward-only (an open left side is line 1), `1:,2` neither
+    (nothing may follow an open right side); `1:2,2:3` is (`prev.r ≤ next.l`) -/
+example : isForwardOnly [.bound ⟨.some 2, .some 2, false, none⟩, .bound ⟨.cont, .some 3, true, none⟩]
+    = false := by decide
+example : isForwardOnly [.bound ⟨.some 1, .cont, false, none⟩, .bound ⟨.some 2, .some 2, true, none⟩]
+    = false := by decide
+example : isForwardOnly [.bound ⟨.some 1, .some 2, false, none⟩, .bound ⟨.some 2, .some 3, true, none⟩]
+    = true := by decide
 
 end Tuc
